@@ -698,6 +698,17 @@ def units(tier):
             lt = max(p.get('lt', 0), p.get('lt_a', 0), p.get('lt_b', 0))
             return (nd >= 3 and lt >= 1) or lt >= 3
         U = [u for u in U if not heavy(u[2])]
+        # final cut (the list above still ran for more than 40 minutes on 15 cores): thorough = every unit of the quick tier plus, for the
+        # three extra symmetries, the shapes up to two legs / one block per operand.  The deeper shapes stay in the code above for reference.
+        quick_ids = {(u[0], u[1]) for u in units('quick')}
+
+        def small(p):
+            if p.get('sym') not in extra:
+                return False
+            if 'nd_a' in p:
+                return p['nd_a'] + p['nd_b'] <= 4 and p['lt_a'] <= 1 and p['lt_b'] <= 1
+            return p.get('nd', 2) <= 2 and max(p.get('lt', 0), p.get('lt_a', 0), p.get('lt_b', 0)) <= 1
+        U = [u for u in U if (u[0], u[1]) in quick_ids or small(u[2])]
     return U
 
 
